@@ -667,15 +667,15 @@ theorem ColsCapWF.sameShape {A : List Nat} {h h' : Cells} {n : Nat} {cols : List
 theorem eff_aln_revComp (cx : Ctx) (h : Cells) (a : Aln) (hw : ObjWF h (.aln a)) :
     Eff h (.aln a) (a.revComp cx h).1 (.aln (a.revComp cx h).2) := by
   have hs : SameShape (Obj.aln a).arrs h (a.revComp cx h).1 := SameShape.colLoop _ a.cols _ _ _ h
-  obtain ⟨h0, n, hc⟩ := hw
-  exact Eff.of_sameShape hs rfl ⟨h0, n, hc.sameShape hs⟩
+  obtain ⟨h0, n, hc, hsub⟩ := hw
+  exact Eff.of_sameShape hs rfl ⟨h0, n, hc.sameShape hs, hsub⟩
 
 theorem Aln.reverse_cols (a : Aln) : a.reverse.cols = a.cols.reverse := twoPtr_reverse a.cols
 
 theorem eff_aln_reverse (h : Cells) (a : Aln) (hw : ObjWF h (.aln a)) :
     Eff h (.aln a) h (.aln a.reverse) := by
-  obtain ⟨h0, n, hc⟩ := hw
-  refine Eff.of_sameShape' (SameShape.refl _ h) ?_ ⟨h0, n, ⟨?_, ?_⟩, ?_⟩
+  obtain ⟨h0, n, hc, hsub⟩ := hw
+  refine Eff.of_sameShape' (SameShape.refl _ h) ?_ ⟨h0, n, ⟨⟨?_, ?_⟩, ?_⟩, ?_⟩
   · intro a' ha'
     simp only [Obj.arrs, Aln.reverse_cols, List.map_reverse, List.mem_reverse] at ha'
     exact ha'
@@ -687,6 +687,11 @@ theorem eff_aln_reverse (h : Cells) (a : Aln) (hw : ObjWF h (.aln a)) :
   · intro c hc'
     rw [Aln.reverse_cols, List.mem_reverse] at hc'
     exact hc.2 c hc'
+  · intro hne
+    apply hsub
+    intro e
+    apply hne
+    rw [Aln.reverse_cols, e]; rfl
 
 theorem sameShape_aln_set (h : Cells) (a : Aln) (r : Nat) (pos : Int) (c : QL) :
     SameShape (Obj.aln a).arrs h (a.set h r pos c) := by
@@ -700,20 +705,24 @@ theorem sameShape_aln_set (h : Cells) (a : Aln) (r : Nat) (pos : Int) (c : QL) :
 
 theorem eff_aln_set (h : Cells) (a : Aln) (r : Nat) (pos : Int) (c : QL) (hw : ObjWF h (.aln a)) :
     Eff h (.aln a) (a.set h r pos c) (.aln a) := by
-  obtain ⟨h0, n, hc⟩ := hw
-  exact Eff.of_sameShape (sameShape_aln_set h a r pos c) rfl ⟨h0, n, hc.sameShape (sameShape_aln_set h a r pos c)⟩
+  obtain ⟨h0, n, hc, hsub⟩ := hw
+  exact Eff.of_sameShape (sameShape_aln_set h a r pos c) rfl ⟨h0, n, hc.sameShape (sameShape_aln_set h a r pos c), hsub⟩
 
 theorem eff_aln_rowRevComp (cx : Ctx) (h : Cells) (a : Aln) (r : Nat) (hw : ObjWF h (.aln a)) :
     Eff h (.aln a) (a.rowRevComp cx h r).1 (.aln (a.rowRevComp cx h r).2) := by
   have hs : SameShape (Obj.aln a).arrs h (a.rowRevComp cx h r).1 := SameShape.rowLoop _ _ a.cols r _ _ _ h
-  obtain ⟨h0, n, hc⟩ := hw
-  exact Eff.of_sameShape hs rfl ⟨h0, n, hc.sameShape hs⟩
+  obtain ⟨h0, n, hc, hsub⟩ := hw
+  exact Eff.of_sameShape hs rfl ⟨h0, n, hc.sameShape hs, fun hne => by
+    show (Aln.modSub a.subs r _).length = n
+    simp only [Aln.modSub, List.length_modify]; exact hsub hne⟩
 
 theorem eff_aln_rowReverse (h : Cells) (a : Aln) (r : Nat) (hw : ObjWF h (.aln a)) :
     Eff h (.aln a) (a.rowReverse h r).1 (.aln (a.rowReverse h r).2) := by
   have hs : SameShape (Obj.aln a).arrs h (a.rowReverse h r).1 := SameShape.rowLoop _ _ a.cols r _ _ _ h
-  obtain ⟨h0, n, hc⟩ := hw
-  exact Eff.of_sameShape hs rfl ⟨h0, n, hc.sameShape hs⟩
+  obtain ⟨h0, n, hc, hsub⟩ := hw
+  exact Eff.of_sameShape hs rfl ⟨h0, n, hc.sameShape hs, fun hne => by
+    show (Aln.modSub a.subs r _).length = n
+    simp only [Aln.modSub, List.length_modify]; exact hsub hne⟩
 
 /-! ### column-stored alignments: columns in new arrays (Clone, AppendColumns, AppendEach) -/
 
@@ -771,11 +780,21 @@ theorem cloneColsFold_wf (cx : Ctx) (n : Nat) (h0 : Cells) : ∀ (cols : List Sl
 theorem aln_clone_facts (cx : Ctx) (h : Cells) (a : Aln) (hw : ObjWF h (.aln a)) :
     Grow h (a.clone cx h).1 ∧ ObjWF (a.clone cx h).1 (.aln (a.clone cx h).2) ∧
     ∀ x ∈ (Obj.aln (a.clone cx h).2).arrs, h.arrays.length ≤ x := by
-  obtain ⟨h0, n, hc⟩ := hw
+  obtain ⟨h0, n, hc, hsub⟩ := hw
   obtain ⟨hf, hg⟩ := cloneColsFold_wf cx n h a.cols h [] (Grow.refl h) (FreshCols.nil h h n)
     (fun c hm => ⟨hc.1.1 c hm, hc.2 c hm⟩)
+  obtain ⟨news, hn2, hall, _, _, _⟩ := cloneColsFold_spec cx n a.cols h [] hc.toColsWF.1
   rw [Aln.clone_eq]
-  refine ⟨hg, ⟨h0, n, ⟨fun c hm => (hf.1 c hm).1, hf.2⟩, fun c hm => (hf.1 c hm).2.1⟩, ?_⟩
+  refine ⟨hg, ⟨h0, n, ⟨⟨fun c hm => (hf.1 c hm).1, hf.2⟩, fun c hm => (hf.1 c hm).2.1⟩, ?_⟩, ?_⟩
+  · intro hne
+    apply hsub
+    intro e
+    apply hne
+    simp only [List.nil_append] at hn2
+    have hl := hall.length_eq
+    rw [e] at hl
+    simp only [hn2]
+    exact List.length_eq_zero_iff.mp hl.symm
   intro x hx
   simp only [Obj.arrs, List.mem_map] at hx
   obtain ⟨c, hm, rfl⟩ := hx
@@ -822,12 +841,14 @@ theorem colsCapWF_append {h0 hc : Cells} {n : Nat} {cols fr : List Slice} (hw : 
 structure Appended (h0 : Cells) (a : Aln) (n : Nat) (hk : Cells) (ak : Aln) : Prop where
   grow : Grow h0 hk
   off : ak.off = a.off
+  subs : ak.subs = a.subs
   cols : ∃ fr, ak.cols = a.cols ++ fr ∧ FreshCols h0 hk n fr
 
 theorem Appended.eff {h0 hk : Cells} {a ak : Aln} {n : Nat} (hoff : a.off = 0) (hw : ColsCapWF h0 n a.cols)
-    (hap : Appended h0 a n hk ak) : Eff h0 (.aln a) hk (.aln ak) := by
+    (hsub : a.subs.length = n) (hap : Appended h0 a n hk ak) : Eff h0 (.aln a) hk (.aln ak) := by
   obtain ⟨fr, hcols, hf⟩ := hap.cols
-  refine ⟨hap.grow.size, fun b hb _ => hap.grow.frame b hb, ?_, ⟨by rw [hap.off]; exact hoff, n, ?_⟩⟩
+  refine ⟨hap.grow.size, fun b hb _ => hap.grow.frame b hb, ?_,
+    ⟨by rw [hap.off]; exact hoff, n, ?_, fun _ => by rw [hap.subs]; exact hsub⟩⟩
   · intro a' ha'
     simp only [Obj.arrs, hcols, List.map_append, List.mem_append, List.mem_map] at ha'
     rcases ha' with ⟨c, hm, rfl⟩ | ⟨c, hm, rfl⟩
@@ -853,7 +874,7 @@ theorem appended_appendColumns (cx : Ctx) {h0 hk : Cells} {a ak : Aln} {n : Nat}
   obtain ⟨fr', r1, r2, r3⟩ := colsFold_wf cx ak.q n h0 colsIn hk a.cols fr hap.grow hf hlen
   rw [← hcols] at r1 r2 r3
   subst e1; subst e2
-  exact ⟨r3, hap.off, fr', r1, r2⟩
+  exact ⟨r3, hap.off, hap.subs, fr', r1, r2⟩
 
 theorem Aln.rows?_eq {h : Cells} {n : Nat} {a : Aln} (hw : ColsCapWF h n a.cols) {rows : Nat}
     (hr : a.rows? = some rows) : rows = n := by
@@ -866,14 +887,18 @@ theorem Aln.rows?_eq {h : Cells} {n : Nat} {a : Aln} (hw : ColsCapWF h n a.cols)
     rw [← hr]
     exact hw.2 c (by rw [hc]; exact List.mem_cons_self)
 
+theorem Aln.cols_ne_nil {a : Aln} {rows : Nat} (hr : a.rows? = some rows) : a.cols ≠ [] := by
+  intro e
+  simp [Aln.rows?, e] at hr
+
 theorem eff_aln_appendColumns (cx : Ctx) (h : Cells) (a : Aln) (hw : ObjWF h (.aln a)) (rows : Nat)
     (hr : a.rows? = some rows) (colsIn : List (List QL)) (h' : Cells) (a' : Aln)
     (happ : a.appendColumns cx h rows colsIn = some (h', a')) : Eff h (.aln a) h' (.aln a') := by
-  obtain ⟨h0, n, hc⟩ := hw
+  obtain ⟨h0, n, hc, hsub⟩ := hw
   have hrn := Aln.rows?_eq hc hr
   subst hrn
-  have hap0 : Appended h a rows h a := ⟨Grow.refl h, rfl, [], by simp, FreshCols.nil h h rows⟩
-  exact (appended_appendColumns cx hap0 colsIn h' a' happ).eff h0 hc
+  have hap0 : Appended h a rows h a := ⟨Grow.refl h, rfl, rfl, [], by simp, FreshCols.nil h h rows⟩
+  exact (appended_appendColumns cx hap0 colsIn h' a' happ).eff h0 hc (hsub (Aln.cols_ne_nil hr))
 
 theorem appended_eachFold (cx : Ctx) (h0 : Cells) (a : Aln) (n : Nat) (runs : List (List QL)) (hr : runs.length = n) :
     ∀ (idx : List Nat) (hk : Cells) (ak : Aln), Appended h0 a n hk ak →
@@ -893,7 +918,7 @@ theorem appended_eachFold (cx : Ctx) (h0 : Cells) (a : Aln) (n : Nat) (runs : Li
 theorem eff_aln_appendEach (cx : Ctx) (h : Cells) (a : Aln) (hw : ObjWF h (.aln a)) (rows : Nat)
     (hr : a.rows? = some rows) (runs : List (List QL)) (h' : Cells) (a' : Aln)
     (happ : a.appendEach cx h rows runs = some (h', a')) : Eff h (.aln a) h' (.aln a') := by
-  obtain ⟨h0, n, hc⟩ := hw
+  obtain ⟨h0, n, hc, hsub⟩ := hw
   have hrn := Aln.rows?_eq hc hr
   subst hrn
   unfold Aln.appendEach at happ
@@ -901,13 +926,13 @@ theorem eff_aln_appendEach (cx : Ctx) (h : Cells) (a : Aln) (hw : ObjWF h (.aln 
   · cases happ
   · rename_i hlen
     have hlen' : runs.length = rows := by simpa using hlen
-    have hap0 : Appended h a rows h a := ⟨Grow.refl h, rfl, [], by simp, FreshCols.nil h h rows⟩
+    have hap0 : Appended h a rows h a := ⟨Grow.refl h, rfl, rfl, [], by simp, FreshCols.nil h h rows⟩
     obtain ⟨h2, a2, e, hap⟩ := appended_eachFold cx h a rows runs hlen' _ h a hap0
     rw [e] at happ
     simp only [Option.some.injEq, Prod.mk.injEq] at happ
     obtain ⟨e1, e2⟩ := happ
     subst e1; subst e2
-    exact hap.eff h0 hc
+    exact hap.eff h0 hc (hsub (Aln.cols_ne_nil hr))
 
 /-! ### Delete on a column-stored alignment -/
 
@@ -952,7 +977,7 @@ theorem delFold_wf (i n : Nat) (hi : i < n) : ∀ (cols : List Slice) (h : Cells
 
 theorem eff_aln_delete (h : Cells) (a : Aln) (hw : ObjWF h (.aln a)) (i : Nat) (hi : i < a.rows) :
     Eff h (.aln a) (a.delete h i).1 (.aln (a.delete h i).2) := by
-  obtain ⟨h0, n, hc⟩ := hw
+  obtain ⟨h0, n, hc, hsub⟩ := hw
   -- `i < Rows()` means there is a column, of `n` rows
   have hin : i < n := by
     simp only [Aln.rows] at hi
@@ -963,7 +988,12 @@ theorem eff_aln_delete (h : Cells) (a : Aln) (hw : ObjWF h (.aln a)) (i : Nat) (
   rw [Aln.delete_eq]
   simp only [List.nil_append] at h2
   have hm : cols'.map (·.arr) = a.cols.map (·.arr) := (hall.map_eq _ _ fun c c' hcc => hcc.1.symm).symm
-  refine Eff.of_sameShape hs (by simp only [Obj.arrs, h2, hm]) ⟨h0, n - 1, ⟨?_, ?_⟩, ?_⟩
+  have hne : a.cols ≠ [] := by
+    intro e
+    simp [Aln.rows, Aln.rows?, e] at hi
+  refine Eff.of_sameShape hs (by simp only [Obj.arrs, h2, hm]) ⟨h0, n - 1, ⟨⟨?_, ?_⟩, ?_⟩, fun _ => by
+    show (a.subs.eraseIdx i).length = n - 1
+    rw [List.length_eraseIdx, hsub hne]; simp [hin]⟩
   · intro c' hc'
     simp only [h2] at hc'
     obtain ⟨c, hcm, e1, e2, e3, e4⟩ := hall.exists_left c' hc'
@@ -1099,16 +1129,24 @@ theorem aln_add_prefix (cx : Ctx) (h : Cells) (a : Aln) (seqs : List Lin) (n : N
 
 theorem eff_aln_add (cx : Ctx) (h : Cells) (a : Aln) (hw : ObjWF h (.aln a)) (seqs : List Lin) :
     Eff h (.aln a) (a.add cx h seqs).1 (.aln (a.add cx h seqs).2) := by
-  obtain ⟨h0, n, hc⟩ := hw
+  obtain ⟨h0, n, hc, hsub⟩ := hw
   obtain ⟨news, e2, hlen, hwf, hnews, hsz, hfr⟩ := aln_add_prefix cx h a seqs n h0 hc a.cols.length (Nat.le_refl _)
   rw [Aln.add_eq]
   rw [List.drop_length, List.append_nil] at e2 hwf
-  refine ⟨hsz, hfr, ?_, ⟨h0, n + seqs.length, ?_⟩⟩
+  refine ⟨hsz, hfr, ?_, ⟨h0, n + seqs.length, ?_, ?_⟩⟩
   · intro a' ha'
     simp only [Obj.arrs, e2, List.mem_map] at ha'
     obtain ⟨c, hm, rfl⟩ := ha'
     exact (hnews c hm).2
   · simp only [e2]
     exact ⟨hwf, fun c hm => (hnews c hm).1⟩
+  · intro hne
+    simp only [e2] at hne
+    have hne' : a.cols ≠ [] := by
+      intro e
+      rw [e] at hlen
+      simp only [List.length_nil] at hlen
+      exact hne (List.length_eq_zero_iff.mp hlen)
+    simp only [List.length_append, List.length_map, hsub hne']
 
 end Biogo.Containers
